@@ -284,6 +284,70 @@ def judge_host_timezone():
     return bad
 
 
+LOCALE_CHILD = r'''
+import io, json, os, sys, tempfile
+from mc import build as B
+from mc import ev as E
+from pykdebugparser.pykdebugparser import PyKdebugParser
+from pykdebugparser.trace_codes import from_trace_codes_file, default_trace_codes
+out = {}
+path = '/caf\u00e9/\u20ac/na\u00efve.txt'
+recs = [B.rec(1, (1, 0, 0, 0), 1, E.n2i('BSC_open') | 1)]
+for i, (d, q) in enumerate(B.lookup_chunks(0x77, path)):
+    recs.append(B.rec(2 + i, tid=1, debugid=E.n2i('VFS_LOOKUP') | q, data=d))
+recs.append(B.rec(9, (0, 3, 0, 0), 1, E.n2i('BSC_open') | 2))
+recs.append(B.rec(10, tid=1, debugid=E.n2i('TRACE_STRING_THREADNAME'), data='fil\u00e9'.encode().ljust(32, b'\0')))
+recs.append(B.rec(11, tid=1, debugid=E.n2i('TRACE_STRING_GLOBAL') | 3, data=B.global_string_chunks(0, 500, 'lib\u00e9')[0][0]))
+blob = B.v2([(1, 10, 'proc\u00e9')], 0, recs)
+for api in ('formatted_traces', 'formatted_kevents'):
+    f = PyKdebugParser()
+    f.color = False
+    try:
+        out[api] = list(getattr(f, api)(io.BytesIO(blob), dict(E.codes())))
+    except Exception as ex:
+        out[api] = 'RAISED ' + type(ex).__name__
+d = tempfile.mkdtemp(prefix='verif_loc_')
+p = os.path.join(d, 't.codes')
+with open(p, 'wb') as fh:
+    fh.write('0x1 NAME_\u00e9\n0x2 PLAIN\n'.encode('utf-8'))
+try:
+    out['file'] = sorted(from_trace_codes_file(p).items())
+except Exception as ex:
+    out['file'] = 'RAISED ' + type(ex).__name__
+os.unlink(p); os.rmdir(d)
+try:
+    out['bundled'] = len(default_trace_codes())
+except Exception as ex:
+    out['bundled'] = 'RAISED ' + type(ex).__name__
+print(json.dumps(out))
+'''
+
+
+def judge_host_locale():
+    """the same dump (non-ASCII path, thread name, global string, process name) and the same UTF-8 code-table file, in child
+    interpreters started under different host locale settings: the output is the same."""
+    import json
+    import os
+    import subprocess
+    import sys
+    envs = {'utf8-locale': {'LC_ALL': 'C.UTF-8'}, 'c-locale-no-coercion': {'LC_ALL': 'C', 'PYTHONUTF8': '0', 'PYTHONCOERCECLOCALE': '0'},
+            'posix-utf8-mode': {'LC_ALL': 'POSIX', 'PYTHONUTF8': '1'}}
+    seen = {}
+    for label, extra in envs.items():
+        env = {k: v for k, v in os.environ.items() if k not in ('LC_ALL', 'LANG', 'LC_CTYPE', 'PYTHONUTF8', 'PYTHONCOERCECLOCALE', 'PYTHONIOENCODING')}
+        env.update(extra)
+        r = subprocess.run([sys.executable, '-c', LOCALE_CHILD], capture_output=True, text=True, env=env, timeout=120)
+        if r.returncode != 0:
+            return [('harness:locale-child-failed', {'label': label, 'stderr': r.stderr[-300:]})]
+        seen[label] = json.loads(r.stdout.strip().splitlines()[-1])
+    ref = seen['utf8-locale']
+    for label, got in seen.items():
+        for k in ref:
+            if got[k] != ref[k]:
+                return [('host-dependent-output:locale-of-the-host@' + k, {'locale': label, 'got': repr(got[k])[:200], 'under_utf8_locale': repr(ref[k])[:200]})]
+    return []
+
+
 class C18(Check):
     pid = 'C18'
     level = 'model_checking'
@@ -292,7 +356,7 @@ class C18(Check):
             'restored after each case. Inputs: every BSD decoder x END error word 0..255 and 9999; every BSD decoder x every numeric START position x value 0..64 (a word that a new code path looks up in a host table shows here); sigaction x signal 0..40; '
             'socket/socketpair/socket_delegate x family 0..45 x type 0..7; get/setsockopt x level {0,1,6,0xffff} x every declared '
             'SO_ option + 2 undeclared. Oracle: the rendered text (or the exception type) is identical under every configuration. '
-            'Plus the log / trace / event lines of one version-3 dump (log records near midnight) with the timezone option unset and set, under the host time zones UTC, EST5EDT, NZST-12NZDT, IST-5:30: identical. Plus a static scan of every import in pykdebugparser/** against the list of host-dependent stdlib modules: anything '
+            'Plus the log / trace / event lines of one version-3 dump (log records near midnight) with the timezone option unset and set, under the host time zones UTC, EST5EDT, NZST-12NZDT, IST-5:30: identical. Plus child interpreters started under three host locale settings (UTF-8 locale; C locale without coercion, i.e. ASCII file-system and default text encoding; POSIX with UTF-8 mode) formatting one dump with non-ASCII path / thread name / global string / process name and loading one UTF-8 code-table file: identical. Plus a static scan of every import in pykdebugparser/** against the list of host-dependent stdlib modules: anything '
             'beyond the three modelled seams is a violation. states = configurations; transitions = renders; non-trivial = input '
             'whose rendering shows a host-table name under at least one configuration.')
     assumptions = ('the host is modelled by the interpreter tables the code imports today plus the import scan; a dependency through '
@@ -307,7 +371,7 @@ class C18(Check):
         names = [n for n in D.decoder_names() if n.startswith('BSC_')]
         return [('errno', ch) for ch in chunked(names, 32)] + [('small', ch) for ch in chunked(names, 32)] + [('signal',), ('socket', 'BSC_socket'), ('socket', 'BSC_socketpair'),
                                                                ('socket', 'BSC_socket_delegate'), ('sockopt', 'BSC_getsockopt'),
-                                                               ('sockopt', 'BSC_setsockopt'), ('imports',), ('tz',)]
+                                                               ('sockopt', 'BSC_setsockopt'), ('imports',), ('tz',), ('locale',)]
 
     def _compare(self, acc, name, s, e):
         cfgs = configurations()
@@ -368,6 +432,10 @@ class C18(Check):
             for lvl in (0, 1, 6, 0xffff):
                 for o in opts:
                     self._compare(acc, desc[1], (3, lvl, o, 0x4444), (0, 0, 0, 0))
+        elif kind == 'locale':
+            for sig, detail in judge_host_locale():
+                acc.violation(sig, {'kind': 'locale'}, detail)
+            acc.case(nontrivial=True, transitions=12, state=h64('locale'))
         elif kind == 'tz':
             for sig, detail in judge_host_timezone():
                 acc.violation(sig, {'kind': 'tz'}, detail)
@@ -381,6 +449,8 @@ class C18(Check):
     def replay(self, case):
         if case.get('kind') == 'tz':
             return judge_host_timezone()
+        if case.get('kind') == 'locale':
+            return judge_host_locale()
         if case.get('kind') == 'import':
             return [(f"unmodelled-host-dependent-import:{m}@{r}", {}) for r, m in import_scan() if r == case['file'] and m == case['module']]
         s = tuple(int(x, 16) for x in case['start'])
